@@ -160,7 +160,7 @@ BOUNDARY_D = [8, 9, 16, 17, 32, 33, 64, 65]
 def gen_boundary_cov(rng, sizes, dims):
     cases = []
     for N in sizes:
-        D = rng.choice([1, 2, 3])
+        D = rng.choice([1, 2, 2, 3]) if N < 500 else rng.choice([1, 2])
         style = rng.choice(["int", "dyadic"])
         cases.append({"kind": "COV", "D": D, "N": N, "X": gen_matrix(rng, N, D, style), "style": style,
                       "exact": N & (N - 1) == 0, "boundary": True})
@@ -174,7 +174,7 @@ def gen_boundary_cov(rng, sizes, dims):
     return cases
 
 
-def gen_boundary_emb(rng, sizes):
+def gen_boundary_emb(rng, sizes, wide=False):
     cases = []
     for shape in SHAPES:
         X, N, D = gen_shape(rng, shape)
@@ -187,7 +187,7 @@ def gen_boundary_emb(rng, sizes):
         X = gen_correlated(rng, N, D, rng.random() < 0.5)
         cases.append({"kind": "EMB", "solver": "dense", "N": N, "D": D, "d": d, "X": X, "style": "correlated",
                       "boundary": True, "agree": False})
-    if sizes:
+    if wide:                                  # (17 s per case in the exact rational decision procedures: thorough tier)
         D = rng.choice([32, 33])              # wide data: the covariance loop and the solver at a blocking size
         N = rng.choice([12, 40])
         cases.append({"kind": "EMB", "solver": "dense", "N": N, "D": D, "d": rng.randint(1, 3),
@@ -886,7 +886,7 @@ def build_cases(ctx, quick):
         c = gen_emb(rng, "dense", "small" if (quick or j % 8) else "large")
         c["agree"] = (j % 2 == 0) and c["N"] <= 24
         embs.append(c)
-    embs += gen_boundary_emb(rng, [256, 257] if quick else BOUNDARY_N_THOROUGH)
+    embs += gen_boundary_emb(rng, [256, 257] if quick else BOUNDARY_N_THOROUGH, wide=not quick)
     for j, c in enumerate(embs):
         add(c, "api:pca-dense")
         if j % every == 0:
@@ -978,7 +978,7 @@ def run(ctx):
              "generic doubles, any N); probes of Eigen / DenseMatrixOperation / the two front-ends on matrices whose "
              "triangles differ; public API PCA, dense on all styles with d in [1, min(D, N-1)], randomized on exact "
              "rank-d integer data; every second small dense case also through Kernel PCA and MDS.  Wave 2: boundary sizes "
-             "(covariance at N = 255, 256, 257, 512 and D in 8..65; PCA at N = 256, 257, D = 32/33) and shapes (D = 1, "
+             "(covariance at N = 255, 256, 257, 512 and D in 8..65; PCA at N = 256, 257; thorough: PCA at D = 32/33) and shapes (D = 1, "
              "D > N, N = 2, zero-variance feature, identically zero feature); every second case of every stream also as "
              "a scaled copy (data or probed matrix times 2^k, k in +-{10, 30, 40, 52, 60}; randomized solver: k > 0 only, "
              "its absolute cut-off at tiny scales is known finding F36), evaluated after undoing the exact scaling.  "
